@@ -286,11 +286,17 @@ func (re *Regexp) findRunesMatch(r []rune) *regexp2.Match {
 
 func (re *Regexp) forEachStringMatch(s string, n int, f func(*regexp2.Match)) {
 	m := re.findStringMatch(s)
+	// matches arrive in scan order: for right-to-left patterns the edge an
+	// empty match can touch is the previous match's start
+	rtl := re.re.RightToLeft()
 	prevEnd := -1
 	for m != nil && n != 0 {
 		if m.RuneLength != 0 || m.RuneIndex != prevEnd {
 			f(m)
 			prevEnd = m.RuneIndex + m.RuneLength
+			if rtl {
+				prevEnd = m.RuneIndex
+			}
 			if n > 0 {
 				n--
 				if n == 0 {
